@@ -4,6 +4,7 @@ import (
 	"bytes"
 	"fmt"
 	"math/big"
+	"strings"
 	"testing"
 
 	"pgregory.net/rapid"
@@ -144,6 +145,25 @@ func genC03(t *rapid.T) c03Case {
 			sib := core.Entity{File: fmt.Sprintf("sib/s%d.yaml", k), Subject: []core.RDN{{Key: "CN", Value: fmt.Sprintf("sibling %d", k)}}, Issuer: c.W.Ents[0].EffAlias(), Serial: &v}
 			c.W.Ents = append(c.W.Ents, sib)
 		}
+	}
+	if rapid.IntRange(0, 5).Draw(t, "lookalike-child") == 0 {
+		// a subordinate named almost like its issuer: the same pairs in another letter case, with doubled inner blanks, or word
+		// for word (a name is what its configuration says, whatever other name it resembles)
+		how := rapid.IntRange(0, 3).Draw(t, "lookalike-how")
+		var subj []core.RDN
+		for _, rd := range c.W.Ents[0].Subject {
+			v := rd.Value
+			switch how {
+			case 0:
+				v = strings.ToUpper(v)
+			case 1:
+				v = strings.ToLower(v)
+			case 2:
+				v = strings.ReplaceAll(v, " ", "  ")
+			}
+			subj = append(subj, core.RDN{Key: rd.Key, Value: v})
+		}
+		c.W.Ents = append(c.W.Ents, core.Entity{File: "look/alike.yaml", Subject: subj, SubjectSep: c.W.Ents[0].SubjectSep, Issuer: c.W.Ents[0].EffAlias()})
 	}
 	c.Profile = genAcceptingProfile(t, c.W.Ents[0].Subject, "p")
 	// the profile may also contribute a validity period and extensions (merging must leave subject, serial and unique ids alone)
